@@ -61,7 +61,7 @@ class Out:
             "states": self.states,
             "runs": self.runs,
             "nontrivial": self.nontrivial,
-            "sim_s": seams.SimClock.total_advance.total_seconds(),
+            "sim_s": (seams.SimClock.cumulative + seams.SimClock.total_advance).total_seconds(),
             "digest": self._h.hexdigest(),
             "extra": self.extra,
         }
